@@ -25,15 +25,6 @@ def mkSw (product version : Str) (patch : Option Str) : Software := ⟨none, pro
 def db2Items (kex key enc mac : List Str) : List (Str × List Str) :=
   [("kex".toList, kex), ("key".toList, key), ("enc".toList, enc), ("mac".toList, mac)]
 
-/-- every version string of the rating databases, per product (for the order-safety report) -/
-def dbVersionsOf (db : DB) : List (Str × Str) :=
-  (db.flatMap fun (_, es) => es.flatMap fun e => (DBm.versions e).flatMap fun o =>
-    match o with
-    | none => []
-    | some v => (Text.splitOn ',' v).filterMap fun d =>
-        let (p, ver, _) := getSshVersion d
-        if ver = [] then none else some (p, ver))
-
 def versionOp (op : String) (args : List String) : Option J :=
   match op, args with
   | "ver.cmpnum", [a, b] => do
